@@ -427,6 +427,8 @@ def shrink_records(impl, c, kind):
             if nxt is None:
                 break
             recs = nxt
+    if len(content_of(recs)) >= c['size']:
+        return c
     return dict(c, records=recs, size=len(content_of(recs)), shrunk_from=c['size'])
 
 
